@@ -17,6 +17,7 @@ from asphalt.core import (  # noqa: E402
     Component,
     add_resource,
     add_teardown_callback,
+    context_teardown,
     run_application,
     start_service_task,
 )
@@ -135,7 +136,15 @@ def build_app(ending, nchild, when, log, ctl, flaky=0):
             if self.fail == "preparing":
                 raise boom
 
+        @context_teardown
+        async def managed(self, label):
+            # ONE decorated method shared by all instances of the class: each call registers its own teardown
+            log.append(("registered", label))
+            yield
+            log.append(("td", label))
+
         async def start(self):
+            await self.managed(f"child{self.idx}.managed")
             await atd(f"child{self.idx}.start1")
             td_res(f"child{self.idx}.resource")
             await anyio.sleep(0)
